@@ -19,6 +19,26 @@ def run_wl(toks):
     real_moves.RecordingRandom.CAP = 10 ** 9
     wl.rng = types.SimpleNamespace(Random=real_moves.RecordingRandom)
     d = tempfile.mkdtemp(prefix="ciderverif_wl_")
+    # optional scripted proposals ("script:SEQ*count,SEQ*count,..."): the four proposal moves hand back the scripted sequences (all
+    # rearrangements of the input) until the script is used up - the property quantifies over every sequence of proposals, and some
+    # (e.g. an in-range bin first proposed after the occupied bin was visited > 710 times) practically never arise from random moves
+    script = []
+    if len(toks) > 11 and toks[11].startswith("script:"):
+        for part in toks[11][7:].split(","):
+            sq, cnt = part.split("*")
+            script += [sq] * int(cnt)
+    from localcider.backend.sequence import Sequence as _Seq
+    _orig = {m: getattr(_Seq, m) for m in ("full_shuffle", "swapRandChargeRes", "permute_block_swap", "permute_cluster_charges")}
+    if script:
+        _it = iter(script)
+
+        def _mk(name):
+            def _move(self, *a, **k):
+                nxt = next(_it, None)
+                return _Seq(nxt) if nxt is not None else _orig[name](self, *a, **k)
+            return _move
+        for m in _orig:
+            setattr(_Seq, m, _mk(m))
     try:
         with contextlib.redirect_stdout(io.StringIO()):
             m = wl.WangLandauMachine(seq, d, frozen, nbins=nbins, binmin=binmin, binmax=binmax, flatchk=flatchk,
@@ -42,5 +62,7 @@ def run_wl(toks):
             "start": m._verif_start, "trace": trace, "ret": [[float(x) for x in row] for row in ret], "files": files,
             "tape": list(real_moves.RecordingRandom.TAPE), "seq": m.seq.seq})
     finally:
+        for m, f in _orig.items():
+            setattr(_Seq, m, f)
         shutil.rmtree(d, ignore_errors=True)
         real_moves.RecordingRandom.CAP = 4000
